@@ -72,33 +72,17 @@ impl BerEncoder for SnmpInt {
             }
             Ordering::Less => {
                 let start = buf.len();
-                let mut left = -self.0;
-                // Calculate used octets
-                let mut ln = 0;
-                while left > 0 {
-                    ln += 1;
+                // Write body
+                // Two's complement: arithmetic shift keeps the sign,
+                // stop on the first octet which carries the sign bit
+                // while all the remaining bits are ones
+                let mut left = self.0;
+                loop {
+                    buf.push_u8((left & 0xff) as u8)?;
+                    if left >= -128 {
+                        break;
+                    }
                     left >>= 8;
-                }
-                // Calculate complement
-                let d = 1 << (ln * 8 - 1);
-                left = -self.0;
-                let comp = if d < left { d << 8 } else { d };
-                // Write octets
-                if comp == left {
-                    for _ in 0..ln - 1 {
-                        buf.push_u8(0)?;
-                    }
-                    buf.push_u8(0x80)?;
-                } else {
-                    left = comp - left;
-                    loop {
-                        if left < 0xff {
-                            buf.push_u8(0x80 | (left as u8))?;
-                            break;
-                        }
-                        buf.push_u8((left & 0xff) as u8)?;
-                        left >>= 8;
-                    }
                 }
                 // Write tag and length
                 buf.push_tag_len(TAG_INT, buf.len() - start)
